@@ -11,7 +11,7 @@ import ast
 
 from ..effects import Program
 from ..literal import ClassRef
-from ..model import AnalysisError, methods
+from ..model import AnalysisError, dotted_name, methods, norm
 from ..unittables import module_const
 
 LEVEL_TEXT = ("static analysis (ast): interprocedural effect analysis - parameter-rooted points-to, mutation and "
@@ -158,6 +158,7 @@ def r2_inplace_api(ctx):
 
 
 def r3_no_shared_mutable_state(ctx):
+    _fresh_arrays(ctx)
     prog, implemented = getattr(ctx, "_c07", None) or build(ctx)
     writers = _mutable_classes(prog)
     mutable = {}
@@ -233,6 +234,31 @@ INPLACE_DUNDERS = ("__iadd__", "__isub__", "__imul__", "__itruediv__", "__ifloor
                    "__ilshift__", "__irshift__")
 VALUE_CLASSES = (("src/scinumtools/units/fraction.py", "Fraction"), ("src/scinumtools/units/magnitude.py", "Magnitude"), ("src/scinumtools/units/dimensions.py", "Dimensions"),
                  ("src/scinumtools/units/base_units.py", "BaseUnits"), ("src/scinumtools/units/quantity.py", "Quantity"))
+
+
+def _fresh_arrays(ctx):
+    """Magnitude.__init__ keeps its own array: `astype(float)` copies, `astype(float, copy=False)`, `np.asarray` and the
+    argument itself do not - the caller's array (an operand's values, a slice of them) would then be the new object's."""
+    rel = "src/scinumtools/units/magnitude.py"
+    fn = ctx.fn(rel, "Magnitude.__init__")
+    pv = fn.args.args[1].arg
+    what = "an array magnitude is stored as a fresh copy, never the caller's array"
+    seen = 0
+    for a in ast.walk(fn):
+        if isinstance(a, ast.Assign) and any(norm(t) == "self.value" for t in a.targets):
+            v = a.value
+            txt = norm(v)
+            if isinstance(v, ast.Call) and isinstance(v.func, ast.Attribute) and v.func.attr == "astype" and norm(v.func.value) == pv:
+                seen += 1
+                nocopy = any(k.arg == "copy" and isinstance(k.value, ast.Constant) and k.value.value is False for k in v.keywords)
+                if nocopy:
+                    ctx.violated(rel, "Magnitude.__init__", what, detail=txt, expected=f"{pv}.astype(float)")
+                else:
+                    ctx.holds(rel, "Magnitude.__init__", what)
+            elif isinstance(v, ast.Call) and dotted_name(v.func) in ("np.asarray", "numpy.asarray", "np.asanyarray") and v.args and norm(v.args[0]) == pv:
+                seen += 1
+                ctx.violated(rel, "Magnitude.__init__", what, detail=txt, expected=f"{pv}.astype(float) / np.array({pv}, dtype=float)")
+    ctx.form(seen >= 1, rel, "Magnitude.__init__", "the array branch of the constructor is found")
 
 
 def r4_value_objects(ctx):
